@@ -2,6 +2,8 @@
 // first lines (so that texts starting inside a cluster / with a mark occur), x dir flags 0..7 x {font NULL, ppm 16}.
 #include "common/corpus.hpp"
 #include "common/segcheck.hpp"
+#include <dirent.h>
+#include <algorithm>
 using namespace vf;
 static std::vector<std::string> g_fonts; static std::vector<std::vector<std::string>> g_items; struct Case { int font, item; }; static std::vector<Case> g_cases; static FaceCache *g_fc;
 static std::vector<std::string> utf8_chars(const std::string &s) { std::vector<std::string> v; size_t i = 0; while (i < s.size()) { size_t j = i + 1; while (j < s.size() && (uint8_t(s[j]) & 0xC0) == 0x80) ++j; v.push_back(s.substr(i, j - i)); i = j; } return v; }
@@ -11,15 +13,21 @@ static void setup(Runner &r, const Tier &t) {
         std::vector<std::string> lines = corpus_items(sf.corpus, t.thorough ? 60 : 12, false);
         for (auto &l : lines) { std::vector<std::string> ch = utf8_chars(l); for (size_t a = 0; a < ch.size() && a < 60; ++a) { std::string sub; for (size_t k = 0; k < 4 && a + k < ch.size(); ++k) { sub += ch[a + k]; if (seen.insert(sub).second) items.push_back(sub); } } }
         int fi = int(g_fonts.size()); g_fonts.push_back(sf.file); g_items.push_back(items); for (int it = 0; it < int(items.size()); ++it) g_cases.push_back({ fi, it }); }
+    // every synthesised seed font (all S-full / S-min / Feat variants: the edge-case fonts of the other checks) x all strings of length 0..3 (quick 0..2 + a sample of 3) over the S-full repertoire
+    { static const uint32_t alpha[11] = { 0x61, 0x62, 0x63, 0x64, 0x65, 0x66, 0x20, 0x301, 0x300, 0x2022, 0x10000 }; std::vector<std::string> tx;
+      for (int L = 0; L <= 3; ++L) { int n = 1; for (int k = 0; k < L; ++k) n *= 11; for (int v = 0; v < n; ++v) { std::vector<uint8_t> b; int x = v; for (int k = 0; k < L; ++k) { ref::enc8(alpha[x % 11], b); x /= 11; } tx.push_back(std::string(b.begin(), b.end())); } }
+      std::vector<std::string> gen; if (DIR *d = opendir(gen_dir().c_str())) { while (dirent *e = readdir(d)) { std::string n = e->d_name; if (n.size() > 4 && n.substr(n.size() - 4) == ".ttf") gen.push_back(n); } closedir(d); } std::sort(gen.begin(), gen.end());
+      for (auto &g : gen) { int fi = int(g_fonts.size()); g_fonts.push_back(gen_dir() + "/" + g); g_items.push_back(tx); for (int it = 0; it < int(tx.size()); ++it) g_cases.push_back({ fi, it }); } }
     r.ncases = g_cases.size(); r.case_alarm_s = 120; r.shard_init = [](int) { g_fc = new FaceCache; };
     r.describe = [](uint64_t i) { const Case &c = g_cases[i]; const std::string &tx = g_items[c.font][c.item]; JObj o; o.kv("font", g_fonts[c.font]).kv("text_utf8_hex", hex(tx.data(), tx.size())).kv("dirs", "0..7").kv("fonts", "NULL and ppm 16"); return o; };
     r.body = [](uint64_t i, ShardCtl &ctl) { const Case &c = g_cases[i]; const std::string &tx = g_items[c.font][c.item]; gr_face *f = g_fc->get(g_fonts[c.font], gr_face_preloadAll); if (!f) return; static std::map<gr_face*, gr_font*> fonts; gr_font *&font = fonts[f]; if (!font) font = gr_make_font(16.f, f);
         std::vector<ref::Decoded> dec; { size_t p = 0; const uint8_t *b = (const uint8_t*)tx.data(); while (p < tx.size()) { ref::Decoded d = ref::dec8(b + p, tx.size() - p, p); dec.push_back(d); p += d.units; } }
         int ng = gr_face_n_glyphs(f);
         for (int dir = 0; dir < 8; ++dir) for (int wf = 0; wf < (dir < 2 ? 2 : 1); ++wf) { gr_segment *s = gr_make_seg(wf ? font : nullptr, f, 0, nullptr, gr_utf8, tx.c_str(), dec.size(), dir); ctl.counters[0] = ctl.counters[0] + 1; if (!s) continue;
-            SegExpect e; e.nchars = dec.size(); e.chars = &dec; e.strict_chars = true; e.n_glyphs = ng; std::vector<SegViolation> v; check_segment(s, e, v); touch_all_queries(s, f, wf ? font : nullptr, 4);
+            SegExpect e; e.nchars = dec.size(); e.chars = &dec; e.strict_chars = true; e.n_glyphs = ng; std::vector<SegViolation> v; check_segment(s, e, v);
             if (gr_seg_n_slots(s) > 64 * (dec.empty() ? 1 : dec.size())) { JObj o; o.kv("prop", "C02").kv("kind", "slot_cap_exceeded").kv("font", g_fonts[c.font]).kv("text_utf8_hex", hex(tx.data(), tx.size())).kv("dir", dir); report_fail(i, o); }
             for (auto &x : v) { JObj o; o.kv("prop", x.prop).kv("kind", "structural_invariant").kv("what", x.what).kv("font", g_fonts[c.font]).kv("text_utf8_hex", hex(tx.data(), tx.size())).kv("dir", dir).kv("with_font", wf); report_fail(i, o); break; }
+            touch_all_queries(s, f, wf ? font : nullptr, 4);
             if (wf == 0 && dir < 2) { SegDumpOpts o; o.positions = false; o.attrs = false; ctl.cls(hash_str(dump_segment(s, o))); }
             gr_seg_destroy(s); } };
 }
